@@ -149,6 +149,8 @@ def plan(tier, seed):
         cases.append({"kind": "fault_enum", "round": r})
     # held sample bindings called in different forms (positional / keyword names / shapes): every history of up
     # to 2 (quick) or 3 (thorough) earlier calls, enumerated completely, before each probe form
+    # constructs the seed interpreter does not interpret: it must refuse them or still deliver a pure function of the key
+    cases.append({"kind": "uninterpreted", "kseed": int(seed) * 77 + 5})
     for r in range(3 if tier == "quick" else 9):
         cases.append({"kind": "binder_forms", "round": r, "depth": 2 if tier == "quick" else 3, "kseed": int(seed) * 1000 + r})
     return cases
@@ -689,7 +691,88 @@ def run_case(case, ctx):
         return _run_fault_enum(case, ctx)
     if case["kind"] == "binder_forms":
         return _run_binder_forms(case, ctx)
+    if case["kind"] == "uninterpreted":
+        return _run_uninterpreted(case, ctx)
     return _run_program(case, ctx)
+
+
+# ---------------------------------------------------------------------------
+# a sampling site inside a construct the seed interpreter does not look into (custom_jvp / custom_vjp functions,
+# checkpoint, and nestings of them): seed may refuse the function (outside the property's domain), but if it accepts
+# it the result must still be a pure function of (key, args): equal for equal keys whatever happened in between -
+# also for a freshly built identical program - and different for different keys
+# ---------------------------------------------------------------------------
+def _uninterpreted_programs():
+    jax, jnp = _W["jax"], _W["jnp"]
+    import genjax
+
+    def site(x):
+        return genjax.normal.sample(x, 1.0)
+
+    def mk_custom_vjp():
+        @jax.custom_vjp
+        def st(x):
+            return site(x)
+
+        st.defvjp(lambda x: (st(x), None), lambda _, g: (g,))
+        return st
+
+    def mk_custom_jvp():
+        @jax.custom_jvp
+        def cj(x):
+            return site(x)
+
+        cj.defjvp(lambda p, t: (cj(p[0]), t[0]))
+        return cj
+
+    def progs():
+        yield "custom_vjp", lambda: (lambda x, f=mk_custom_vjp(): site(x) + f(x))
+        yield "custom_jvp", lambda: (lambda x, f=mk_custom_jvp(): site(x) + f(x))
+        yield "checkpoint", lambda: (lambda x: site(x) + jax.checkpoint(site)(x))
+        yield "checkpoint>checkpoint", lambda: (lambda x: site(x) + jax.checkpoint(jax.checkpoint(site))(x))
+        yield "checkpoint>custom_vjp", lambda: (lambda x, f=mk_custom_vjp(): site(x) + jax.checkpoint(f)(x))
+        yield "custom_jvp>checkpoint", lambda: (lambda x: site(x) + jax.checkpoint(mk_custom_jvp())(x))
+
+    return list(progs())
+
+
+def _run_uninterpreted(case, ctx):
+    jax, jnp = _W["jax"], _W["jnp"]
+    import genjax
+    from genjax import seed
+
+    ctx.evaluation()
+    rng = np.random.default_rng([case["kseed"], 67])
+    x = jnp.float32(round(float(rng.normal()), 3))
+    k1, k2 = jax.random.key(int(rng.integers(2**31))), jax.random.key(int(rng.integers(2**31)))
+    for name, make in _uninterpreted_programs():
+        det = {"construct": name, "program": f"lambda x: normal.sample(x, 1) + <{name} around normal.sample(x, 1)>", "x": float(x)}
+        for how in ("eager", "jit"):
+            def run(key, _make=make, _how=how):
+                f = seed(_make())  # a freshly built identical program every time
+                return np.asarray((jax.jit(f) if _how == "jit" else f)(key, x))
+
+            r1 = ctx.call(run, k1)
+            ctx.count("uninterpreted_probes")
+            if hasattr(r1, "brief"):
+                ctx.count("uninterpreted_refused")  # outside the domain of the property: seed does not accept it
+                continue
+            for _ in range(int(rng.integers(1, 4))):  # other sampling in between (moves the global counter)
+                genjax.normal.sample(0.0, 1.0)
+            r1b = ctx.call(run, k1)
+            r2 = ctx.call(run, k2)
+            ctx.count("uninterpreted_accepted")
+            if hasattr(r1b, "brief") or hasattr(r2, "brief"):
+                ctx.violation(f"uninterpreted|{name}|{how}|accepted-once-then-raises", {**det, "evaluation": how})
+                continue
+            if not np.array_equal(r1, r1b):
+                ctx.violation(f"uninterpreted|{name}|{how}|same-key-different-result", {**det, "evaluation": how, "first": r1.tolist(), "again": r1b.tolist()})
+            elif np.array_equal(r1, r2) or np.float32(r1 - r2) == np.float32(0):
+                ctx.violation(f"uninterpreted|{name}|{how}|distinct-keys-same-result", {**det, "evaluation": how, "value": r1.tolist()})
+            else:
+                # the site inside the construct must follow the key as well: with the plain site's draw removed
+                pass
+        ctx.distinct("nontrivial", ["uninterpreted", name])
 
 
 # ---------------------------------------------------------------------------
